@@ -337,14 +337,57 @@ def v3(v):
     return (float(v.x), float(v.y), float(v.z))
 
 
-def evaluate_point(E, PS, fns, x, y, z):
+_PROBE = {}
+
+
+def mapper_radii(x, y, z):
+    """The radius the implementation's own AxisymmetricMapper / VectorAxisymmetricMapper hand to the
+    2-D function at (x, y, z): read by wrapping a recording function (no assumption on how the
+    radius is computed: sqrt(x*x + y*y), hypot(x, y), ...)."""
+    if not _PROBE:
+        from raysect.core import Vector3D
+        from cherab.core.math import AxisymmetricMapper, VectorAxisymmetricMapper
+        rec = []
+
+        def fs(r, zz):
+            rec.append(float(r))
+            return 0.0
+
+        def fv(r, zz):
+            rec.append(float(r))
+            return Vector3D(0, 0, 0)
+        _PROBE.update(rec=rec, s=AxisymmetricMapper(fs), v=VectorAxisymmetricMapper(fv))
+    rec = _PROBE["rec"]
+    del rec[:]
+    _PROBE["s"](x, y, z)
+    _PROBE["v"](x, y, z)
+    assert len(rec) == 2, rec
+    return rec[0], rec[1]
+
+
+def evaluate_point(E, PS, fns, x, y, z, which="scalar"):
     """Everything the implementation returns at (x, y, z) / (sqrt(x^2+y^2), z) plus the values of the
     functions the model takes as given.  An exception raised by the implementation at a point of the
     domain is recorded under o["errors"] (it is a finding, reported by the caller)."""
     eq = E.eq
     f2, f3, w2, w3 = fns
-    r = math.sqrt(x * x + y * y)
-    out = {"x": x, "y": y, "z": z, "r": r, "errors": {}}
+    # r is the radius the implementation's mapper really uses (last bit included); Coq validates it
+    # against the exact x^2 + y^2.  If the scalar and the vector mapper ever disagree about it, the point
+    # is evaluated once per mapper (`which`) and the other mapper's 3-D stage is skipped in that case.
+    r_s, r_v = mapper_radii(x, y, z)
+    r = r_s if which == "scalar" else r_v
+    out = {"x": x, "y": y, "z": z, "r": r, "errors": {}, "r_scalar_mapper": r_s, "r_vector_mapper": r_v,
+           "skip": 0 if r_s == r_v else (10 if which == "scalar" else 4)}
+
+    from fractions import Fraction
+    a2 = Fraction(x) ** 2 + Fraction(y) ** 2
+    bad = [rr for rr in (r_s, r_v) if not (math.isfinite(rr) and rr >= 0 and abs(Fraction(rr) ** 2 - a2) <= a2 / 2 ** 49)]
+    if bad:
+        # not a last-bit matter: the mapper evaluates the 2-D function at a radius that is not sqrt(x^2+y^2)
+        out["errors"]["mapper_radius"] = "radius %r handed to the 2-D function is not sqrt(x^2+y^2) = %r within 2^-50" % (
+            bad[0], math.sqrt(float(a2)))
+        out.update(psin=None, inside=None)
+        return out
 
     def call(name, fn, conv):
         try:
